@@ -19,7 +19,7 @@ RULE = (
     "result index tuple, screen hash); non-trivial = result is neither empty nor the full parent"
 )
 ASSUMPTIONS = ["Plate.merge (documented to mutate the parent) is not part of the composition language"]
-REQUIRED = {"plate_views_rechecked_after_merge": {"quick": 300, "thorough": 5000}, "parents_with_rows_marked_observed": {"quick": 200, "thorough": 3000}, "nodes_checked": {"quick": 9000, "thorough": 150000}, "alias_rechecks": {"quick": 100000, "thorough": 1500000}, "cross_parent_refusals": {"quick": 300, "thorough": 5000}}
+REQUIRED = {"refusals_between_a_screen_and_its_copy": {"quick": 100, "thorough": 1500}, "plate_views_rechecked_after_merge": {"quick": 300, "thorough": 5000}, "parents_with_rows_marked_observed": {"quick": 200, "thorough": 3000}, "nodes_checked": {"quick": 9000, "thorough": 150000}, "alias_rechecks": {"quick": 100000, "thorough": 1500000}, "cross_parent_refusals": {"quick": 300, "thorough": 5000}}
 
 ATTRS = ["plate_ids", "sample_ids", "treatment_ids", "sample_names", "treatment_names", "treatment_doses", "observations", "observation_mask"]
 
@@ -302,6 +302,30 @@ def run_shard(rec, tier, seed, shard, nshards):
                             pass
                         except Exception as ex:
                             rec.violation("C14/cross-parent/wrong-exception", "%s of views of different screens raised %r" % (name, ex), None)
+                    # a COPY of a screen (copy.copy, copy.deepcopy, a pickle round trip) is another screen: views of
+                    # the original and of its copy do not combine either
+                    import copy as _copy, pickle as _pickle
+
+                    how_ = int(rng.integers(3))
+                    twin = [_copy.copy, _copy.deepcopy, lambda o: _pickle.loads(_pickle.dumps(o))][how_](parents[pi])
+                    if twin.size:
+                        m1, m2 = _mask(rng, twin.size), _mask(rng, twin.size)
+                        va, vb = parents[pi].subset(m1), twin.subset(m2)
+                        cases_ = [("combine", lambda: va.combine(vb)), ("combine (copy first)", lambda: vb.combine(va)), ("concat", lambda: ScreenSubset.concat([va, vb]))]
+                        pa_, pb_ = parents[pi].plates, twin.plates
+                        if pa_ and pb_:
+                            cases_.append(("Plate.merge", lambda: pb_[0].merge(pa_[-1])))
+                        for name, f in cases_:
+                            rec.count("cross_parent_refusals")
+                            rec.count("refusals_between_a_screen_and_its_copy")
+                            rec.count("oracle_evals")
+                            try:
+                                f()
+                                rec.violation("C14/cross-parent/accepted", "%s of a view of a screen and a view of its %s was accepted" % (name, ["copy.copy", "copy.deepcopy", "pickle round trip"][how_]), None)
+                            except ValueError:
+                                pass
+                            except Exception as ex:
+                                rec.violation("C14/cross-parent/wrong-exception", "%s of views of a screen and its copy raised %r" % (name, ex), None)
             except Exception as ex:
                 rec.violation("C14/op/raises", "%s raised %r\n%s" % (op, ex, kit.tb()), {"op": op})
                 continue
